@@ -47,13 +47,16 @@ impl Model {
         let mut map: BTreeMap<Uuid, ObstData> = BTreeMap::new();
         let mut fshobstmap: BTreeMap<Uuid, f32> = BTreeMap::new();
 
+        // Las tablas climáticas son de solo lectura: un pánico previo con el bloqueo tomado no las invalida
         let latitude = CLIMATEMETADATA
             .lock()
-            .unwrap()
+            .unwrap_or_else(std::sync::PoisonError::into_inner)
             .get(&self.meta.climate)
             .unwrap()
             .latitude;
-        let julyraddata = JULYRADDATA.lock().unwrap();
+        let julyraddata = JULYRADDATA
+            .lock()
+            .unwrap_or_else(std::sync::PoisonError::into_inner);
         let raddata = match julyraddata.get(&self.meta.climate) {
             Some(data) => data,
             None => return fshobstmap,
